@@ -182,6 +182,31 @@ Proof.
   apply IH; [|exact A]. intros c Hin. rewrite B. apply Hc. right; exact Hin.
 Qed.
 
+Lemma ids_before_in cs wc c : In c (ids_before cs wc) -> In c (map fst cs).
+Proof.
+  induction cs as [|d r IH]; cbn [ids_before]; [intros []|]. destruct (String.eqb (fst (snd d)) wc); [intros []|].
+  intros [<-|H]; [left; reflexivity | right; apply IH; exact H].
+Qed.
+Lemma ids_after_in cs wc c : In c (ids_after cs wc) -> In c (map fst cs).
+Proof.
+  induction cs as [|d r IH]; cbn [ids_after]; [intros []|]. destruct (String.eqb (fst (snd d)) wc); intros H; right; [exact H | apply IH; exact H].
+Qed.
+
+Lemma burn_tables_ok s x : tables_ok s -> tables_ok (burn s x).
+Proof. intros Hs. destruct Hs; constructor; assumption. Qed.
+
+Lemma expire_keys_chk_tables x cid keys : forall s acc, In cid (coll_ids s) -> tables_ok s ->
+  tables_ok (fst (expire_keys_chk s x cid keys acc)) /\ coll_ids (fst (expire_keys_chk s x cid keys acc)) = coll_ids s.
+Proof.
+  induction keys as [|k r IH]; intros s acc Hc Hs; cbn [expire_keys_chk]; [split; [exact Hs | reflexivity]|].
+  destruct (is_due (get_doc s (cid, k)) (x_now x)).
+  - destruct (IH (sr_store (kv_on s x cid k KDelete)) (acc ++ sr_events (kv_on s x cid k KDelete))) as [A B].
+    + rewrite kv_on_ids. exact Hc.
+    + apply kv_on_tables_ok; assumption.
+    + split; [exact A | rewrite B; apply kv_on_ids].
+  - destruct (IH (burn s x) acc Hc (burn_tables_ok s x Hs)) as [A B]. split; [exact A | rewrite B; reflexivity].
+Qed.
+
 Theorem sstep_tables_ok s x o : tables_ok s -> tables_ok (sr_store (sstep s x o)).
 Proof.
   intros Hs. destruct o; cbn [sstep].
@@ -216,6 +241,15 @@ Proof.
   - destruct (coll_id s coll); exact Hs.
   - destruct (coll_id s coll); exact Hs.
   - destruct Hs; constructor; assumption.
+  - destruct (coll_id s wc); [|exact Hs].
+    pose proof (expire_colls_tables x (ids_before (s_colls s) wc) s [] (fun c H => ids_before_in _ _ _ H) Hs) as H.
+    destruct (expire_colls s x (ids_before (s_colls s) wc) []) as [s' evs]. exact H.
+  - destruct (coll_id s wc) as [cid|] eqn:E; [|exact Hs].
+    destruct (expire_keys_chk_tables x cid keys s [] (coll_id_in_ids _ _ _ E) Hs) as [A B].
+    destruct (expire_keys_chk s x cid keys []) as [s1 evs1]. cbn [fst] in A, B.
+    pose proof (expire_colls_tables x (ids_after (s_colls s) wc) s1 evs1) as H.
+    destruct (expire_colls s1 x (ids_after (s_colls s) wc) evs1) as [s2 evs2]. cbn [sr_store fst] in *. apply H; [|exact A].
+    intros c Hc. rewrite B. exact (ids_after_in _ _ _ Hc).
 Qed.
 
 Theorem reachable_tables_ok : forall steps s, tables_ok s -> tables_ok (sfinal_from s steps).
